@@ -3,7 +3,9 @@
 
 use crate::{
     engines::svc::*,
+    engines::{wire, wire_interp},
     ids, keys,
+    props::wire_gen,
     runner::{CaseReport, Property, Tier},
 };
 use discv5::{
@@ -72,6 +74,101 @@ pub struct Case {
     pub mode: Mode,
     pub filter: FilterSel,
     pub steps: Vec<Step>,
+    /// companion case on the wire engine (real handlers): checks the post-condition of session
+    /// reports that the scripted steps above rely on. When present, `steps` is empty.
+    #[serde(default)]
+    pub wire: Option<WireCase>,
+}
+
+#[derive(Clone, Debug, PartialEq, Eq, Hash, Serialize, Deserialize)]
+pub struct WireCase {
+    pub cfg: wire::WireConfig,
+    pub ops: Vec<wire::Op>,
+}
+
+/// Post-condition of the real handler's session reports: a record reported as Established at a
+/// socket either carries no UDP address of that socket's family or exactly that socket, and is a
+/// record of the identity that handshook there.
+#[derive(Default)]
+struct SessionReports {
+    seen_events: usize,
+    established: u32,
+    established_nat_noaddr: u32,
+    unverifiable: u32,
+    unverifiable_nat: u32,
+    excluded: u32,
+}
+
+impl wire_interp::Oracle for SessionReports {
+    fn after_step(&mut self, w: &wire::World, op: &wire::Op) -> Option<(String, String)> {
+        let evs: Vec<wire::EvRec> = w.events[self.seen_events..].to_vec();
+        self.seen_events = w.events.len();
+        for e in evs {
+            match &e.out {
+                HandlerOut::Established(enr, sock, dir) => {
+                    let advertised = match sock {
+                        SocketAddr::V4(_) => enr.udp4_socket().map(SocketAddr::V4),
+                        SocketAddr::V6(_) => enr.udp6_socket().map(SocketAddr::V6),
+                    };
+                    let peer = w.node_by_addr(sock);
+                    let is_nat = peer.map(|j| w.cfg.nat_peers.contains(&(j as u8))).unwrap_or(false);
+                    if let Some(j) = peer {
+                        if w.nodes[j].id != enr.node_id().raw() {
+                            return Some((
+                                "admission/session-report-with-record-of-another-node".into(),
+                                format!("node {} reported {} established at {sock} ({dir:?}) where node {j} lives (op {op:?})", e.node, enr.node_id()),
+                            ));
+                        }
+                    }
+                    if let Some(a) = advertised {
+                        if a != *sock {
+                            // the harness itself may have handed the handler a contact whose record
+                            // disagrees with its address (not possible through the public API)
+                            let harness_contact = w.submitted.iter().any(|s| s.from == e.node && s.to_addr == *sock && s.with_record);
+                            if harness_contact {
+                                self.excluded += 1;
+                                continue;
+                            }
+                            return Some((
+                                "admission/session-reported-with-record-address-differing-from-source".into(),
+                                format!(
+                                    "node {} reported Established({dir:?}) for {} at {sock}, but the record advertises {a}: the service would admit a node whose record address is not where its packets come from (op {op:?})",
+                                    e.node,
+                                    enr.node_id()
+                                ),
+                            ));
+                        }
+                    }
+                    self.established += 1;
+                    if is_nat {
+                        self.established_nat_noaddr += 1;
+                    }
+                }
+                HandlerOut::UnverifiableEnr { socket, .. } => {
+                    self.unverifiable += 1;
+                    if w.node_by_addr(socket).map(|j| w.cfg.nat_peers.contains(&(j as u8))).unwrap_or(false) {
+                        self.unverifiable_nat += 1;
+                    }
+                }
+                _ => {}
+            }
+        }
+        None
+    }
+    fn report(&self, _w: &wire::World, rep: &mut CaseReport) {
+        rep.class("wire-companion");
+        rep.count("wire_established_reports", self.established as u64);
+        rep.count("wire_established_reports_for_nat_peer_without_address", self.established_nat_noaddr as u64);
+        rep.count("wire_unverifiable_reports", self.unverifiable as u64);
+        rep.count("wire_unverifiable_reports_for_nat_peer", self.unverifiable_nat as u64);
+        if self.excluded > 0 {
+            rep.exclude("session report for a contact whose mismatching record the harness supplied itself", self.excluded as u64);
+        }
+        if self.unverifiable_nat > 0 || self.established_nat_noaddr > 0 {
+            rep.class("wire-companion/nat-peer-handshake-judged");
+            rep.nontrivial = true;
+        }
+    }
 }
 
 pub struct C12;
@@ -368,16 +465,38 @@ impl Property for C12 {
             5 => (0u8..12).prop_map(|far_from| Step::Lookup { far_from }),
             1 => rec_strategy().prop_map(|rec| Step::Unverifiable { rec }),
         ];
-        (
+        let svc = (
             prop_oneof![3 => Just(Mode::Ip4), 1 => Just(Mode::Ip6), 2 => Just(Mode::Dual)],
             prop_oneof![Just(FilterSel::AcceptAll), Just(FilterSel::NoMarker), Just(FilterSel::EvenPort)],
             proptest::collection::vec(step, 1..n),
         )
-            .prop_map(|(mode, filter, steps)| Case { mode, filter, steps })
-            .boxed()
+            .prop_map(|(mode, filter, steps)| Case { mode, filter, steps, wire: None });
+        let wn = tier.pick(25usize, 60usize);
+        let companion = (wire_gen::config_strategy(false), 0u8..4, any::<u8>(), any::<bool>())
+            .prop_flat_map(move |(cfg, kind, who, replay)| {
+                let np = cfg.n_peers;
+                let mix = if replay { wire_gen::Mix::Replay } else { wire_gen::Mix::Faulty };
+                (Just(cfg), Just(kind), Just(who), wire_gen::ops_strategy(np, mix, wn))
+            })
+            .prop_map(|(mut cfg, kind, who, ops)| {
+                // one or two nodes (possibly V itself) advertise something else than where they live
+                let n = cfg.n_peers + 1;
+                cfg.nat_peers = vec![who % n];
+                if who >= 128 {
+                    cfg.nat_peers.push((who / 16) % n);
+                }
+                cfg.nat_kind = kind;
+                Case { mode: Mode::Ip4, filter: FilterSel::AcceptAll, steps: vec![], wire: Some(WireCase { cfg, ops }) }
+            });
+        prop_oneof![12 => svc, 1 => companion].boxed()
     }
     fn run(case: &Case) -> CaseReport {
         let mut rep = CaseReport::default();
+        if let Some(wc) = &case.wire {
+            let mut o = SessionReports::default();
+            wire_interp::run_case_blocking(wc.cfg.clone(), &wc.ops, wire_interp::Drain::None, &mut o, &mut rep);
+            return rep;
+        }
         let v = run_blocking(run(case, &mut rep));
         if let Some((s, d)) = v {
             rep.fail(s, d);
@@ -389,7 +508,7 @@ impl Property for C12 {
     }
     fn assumptions() -> Vec<String> {
         vec![
-            "injected events obey the handler's post-conditions (record id = session id; address of the source's family equals the source or is absent; Established(Outgoing) carries the record of an outstanding request's contact) - the wire-engine companion check below C12 in DESIGN.md tests those post-conditions on the real handler".into(),
+            "injected events obey the handler's post-conditions (record id = session id; address of the source's family equals the source or is absent; Established(Outgoing) carries the record of an outstanding request's contact); one case in 13 is a wire-engine companion that checks the first two on real handlers: 2..4 handlers of which one or two advertise another ip and port / another port / another ip / no address than where their packets come from, honest traffic with faults or replays, every Established report judged".into(),
             "add_enr is an explicit user action and may store any acceptable record (A4 is about network-learnt records)".into(),
         ]
     }
